@@ -27,7 +27,7 @@
 //             VS  1 when the instance's CFF2 table still has a VariationStore
 //           | err:E | err:cff-E | err:write | err:other | bad:why | panic
 use super::e2e::{
-    cmap_bytes, font_bytes, gen_map_bytes, head_bytes, hhea_like, hvar_bytes, mvar_bytes, name_bytes, opt_hex,
+    cmap_bytes, font_bytes, gen_map_bytes, head_bytes, hhea_like, hvar_bytes, mvar_bytes, name_bytes_for, opt_hex,
     os2_bytes, post_bytes, rng_below, sfnt_tables, t, tbl, u16at, u32at, Prov, FIELDS, MVAR_TAGS,
 };
 use super::*;
@@ -355,7 +355,7 @@ pub fn c2_font(c: &C2) -> Vec<(u32, Vec<u8>)> {
         (t(b"hhea"), hhea),
         (t(b"hmtx"), hmtx),
         (t(b"maxp"), maxp05_bytes(n as u16)),
-        (t(b"name"), name_bytes()),
+        (t(b"name"), name_bytes_for((n as u64 * 4 + c.vals.iter().map(|v| *v as u64 & 0xffff).sum::<u64>()).wrapping_mul(0x9E3779B97F4A7C15) >> 7)),
         (t(b"post"), post),
     ];
     if c.mvar != "-" && !c.mvar.is_empty() {
